@@ -55,7 +55,7 @@ RULE = ("cases = (source topology, transform sequence, edit block) drawn from a 
         "case is non-trivial when at least one monitor decided; distinct = distinct case descriptors")
 WORKERS = {"quick": 8, "thorough": 16}
 BUDGET = {"quick": 150, "thorough": 900}
-NCASES = {"quick": 3000, "thorough": 60000}
+NCASES = {"quick": 8000, "thorough": 60000}
 MAXLEN = {"quick": 4, "thorough": 10}
 FLOORS = {"quick": {"fp.copy": 130, "fp.copy.copy": 130, "fp.deepcopy": 130, "fp.pickle": 130, "fp.subset": 700, "fp.join": 200,
                     "fp.dataframe": 130, "fp.hdf5": 130, "fp.pdb": 120, "pdb.text": 140, "fp.traj.slice": 120,
